@@ -204,3 +204,30 @@ func UniformOK(t *wgen.Type) bool {
 	}
 	return true
 }
+
+// TailInfo returns the byte offset and stride of the runtime-sized tail array of t (ok=false if none).
+func TailInfo(t *wgen.Type) (off, stride int, ok bool) {
+	switch t.Kind {
+	case wgen.KArray:
+		if t.N == 0 {
+			return 0, Stride(t), true
+		}
+	case wgen.KStruct:
+		if n := len(t.Members); n > 0 {
+			o, s, ok := TailInfo(t.Members[n-1].Type)
+			if ok {
+				return Offsets(t)[n-1] + o, s, true
+			}
+		}
+	}
+	return 0, 0, false
+}
+
+// RuntimeCount is WGSL's arrayLength for a binding of bufSize bytes: floor((bufSize - offset) / stride).
+func RuntimeCount(t *wgen.Type, bufSize int) int {
+	off, stride, ok := TailInfo(t)
+	if !ok || bufSize < off {
+		return 0
+	}
+	return (bufSize - off) / stride
+}
